@@ -214,6 +214,10 @@ class Stacker(Transformer):
                     raise ValueError("Feature dimension must not be empty.")
 
             case xr.Dataset():
+                # `to_stacked_array` stacks each variable in its own dimension order;
+                # bring all variables into one order so that the features do not
+                # depend on how the data to be transformed happens to be laid out
+                X = X.transpose(sample_name, *feature_dims)
                 X = X.to_stacked_array(
                     new_dim=feature_name, sample_dims=(self.sample_name,)
                 )
